@@ -58,6 +58,9 @@ type Guard struct {
 	// Value optionally marks non-call values (e.g. the load of a flag variable that a
 	// callback sets) as results of component 0 of this guard.
 	Value func(fn *ssa.Function, v ssa.Value) bool
+	// Instr optionally marks arbitrary instructions (stores, sends) whose execution
+	// establishes an Executed-kind guard.
+	Instr func(in ssa.Instruction) bool
 }
 
 // G is a convenience constructor: callee short names + pass kind on the last result.
@@ -164,6 +167,15 @@ func Flow(fn *ssa.Function, guards []Guard, derived ...Derived) *GuardFlow {
 		}
 	}
 	for gi, g := range guards {
+		if g.Instr != nil {
+			for _, b := range fn.Blocks {
+				for _, in := range b.Instrs {
+					if g.Instr(in) {
+						gf.calls[in] = append(gf.calls[in], gi)
+					}
+				}
+			}
+		}
 		if g.Value == nil {
 			continue
 		}
@@ -1006,11 +1018,15 @@ func CheckSuccessFn(p *Prog, h *RuleH, fn *ssa.Function, r SuccessRule) {
 		g := r.Guards[gi]
 		return len(g.Comps) == 1 && gf.isResult(val, resRef{gi, 0})
 	}
-	check := func(desc string, pos string, f factSet, val ssa.Value) {
-		// classify val
+	check := func(desc string, pos string, f factSet, val ssa.Value, at *ssa.BasicBlock) {
+		// classify val (seeing through defer-spilled result cells)
+		val = gf.Mem.Canon(val)
 		switch classifySuccess(val, r.SuccessBool) {
 		case triF:
 			return // failure return
+		}
+		if knownNonNil(gf.Mem, val, at) {
+			return // `if err != nil { return err }`: a failure return
 		}
 		nret++
 		for _, d := range r.Derived {
@@ -1077,12 +1093,12 @@ func CheckSuccessFn(p *Prog, h *RuleH, fn *ssa.Function, r SuccessRule) {
 				for _, in := range b.Instrs {
 					f = gf.transfer(f, in)
 				}
-				check(fmt.Sprintf("return[%d]", retIdx), p.InstrPos(ret), f, e)
+				check(fmt.Sprintf("return[%d]", retIdx), p.InstrPos(ret), f, e, b.Preds[i])
 			}
 			continue
 		}
 		retIdx++
-		check(fmt.Sprintf("return[%d]", retIdx), p.InstrPos(ret), gf.At(ret), val)
+		check(fmt.Sprintf("return[%d]", retIdx), p.InstrPos(ret), gf.At(ret), val, b)
 	}
 	if nret < r.MinReturns {
 		h.r.Fatalf("%s: %s has %d success returns, expected at least %d", h.ID(), r.Fn, nret, r.MinReturns)
@@ -1247,4 +1263,33 @@ func LEFacts(name string, isA, isB func(fn *ssa.Function, v ssa.Value) bool, str
 // (used for "this construct has a shape the rule does not accept").
 func Never(name string) Guard {
 	return Guard{Name: name, Match: func(Site) bool { return false }, Comps: []Comp{{Result: -1, Kind: IsTrue}}}
+}
+
+// knownNonNil: block b is dominated by the non-nil outcome of a nil test of v
+// (`if v != nil {` true edge or `if v == nil {` false edge).
+func knownNonNil(mr *MemReach, v ssa.Value, b *ssa.BasicBlock) bool {
+	v = mr.Canon(v)
+	fn := b.Parent()
+	for _, blk := range fn.Blocks {
+		ifi, ok := blk.Instrs[len(blk.Instrs)-1].(*ssa.If)
+		if !ok {
+			continue
+		}
+		bo, ok := ifi.Cond.(*ssa.BinOp)
+		if !ok || (bo.Op != token.NEQ && bo.Op != token.EQL) {
+			continue
+		}
+		x, y := mr.Canon(bo.X), mr.Canon(bo.Y)
+		if !(x == v && isNilConst(y) || y == v && isNilConst(x)) {
+			continue
+		}
+		succ := blk.Succs[0]
+		if bo.Op == token.EQL {
+			succ = blk.Succs[1]
+		}
+		if len(succ.Preds) == 1 && succ.Dominates(b) {
+			return true
+		}
+	}
+	return false
 }
